@@ -21,6 +21,11 @@ def main(tier, seed):
         items = core1[:280] + hist[:220]
     items += fam_tt.template_family(seed, tier)
     items += fam_tt.random_tt(seed, 30 if quick else 400)
+    # the general program generator with time travel switched on: arbitrary typed expressions, arrays, strings, loops and
+    # calls inside try bodies, defeat functions, handlers and `??` operands
+    items += families.generated(seed, 70 if quick else 1500, {'tt': 0.8}, family='gentt', inputs=2 if quick else 3)
+    if not quick:
+        items += families.generated(seed + 1, 300, {'tt': 0.8}, family='gentt', w=3, inputs=2)
     from hv import fam_ops
     items += [it for it in fam_ops.fold_family([2]) if 'spec' in it.meta['family']]      # `??` with a constant operand, against its run-time twin
     items += families.examples(names={'max', 'factor', 'mergesort', 'optional_max', 'ouroboros'}, s=120)
@@ -33,5 +38,5 @@ def main(tier, seed):
                        'preempt/if/calls of plain, preemptive and recursive defeat functions; both handlers; histories of two '
                        '(thorough: three) consecutive tries); templates (exits from a try in a loop, return from try, preempt in '
                        'recursive defeat functions, ?? in every position, truth_is_defeat lowerings, the halting example, try in a '
-                       'handler); seeded random time-travel programs; shipped examples', t0,
+                       'handler); seeded random time-travel programs; generated typed programs with time travel (hv/gen.py tt); shipped examples', t0,
                        extra_cov={'oracle_model_check': {'spec': 'TimeTravel.tla TTAgree', 'programs': nprog, 'states': mc.distinct}})
